@@ -20,7 +20,7 @@ def run(rep, tier, seed, replay):
     pr = vlib.prove(rep, PROP)
     vlib.prepare_runners()
     rc = [json.load(open(replay))["case"]["line"]] if replay else None
-    res = differential(rep, PROP, "c04", seed, 80 if tier == "quick" else 4000, tier, replay_cases=rc)
+    res = differential(rep, PROP, "c04", seed, 80 if tier == "quick" else 2500, tier, replay_cases=rc)
     cases, impl, model = res["cases"], res["impl"], res["models"]["c04"]
     mm = vlib.diff_lines(impl, model)
     add_corr(rep, "Client programs with migrations and failovers: replies, final data, executions per request vs the model", res, mm,
@@ -56,7 +56,7 @@ def run(rep, tier, seed, replay):
             found = True
             rep.violation({"kind": "history", "oracle": what, "case": {"line": cases[i], "format": "nodes layout bg # items: q <request> [@ask steps] | mb slot to | mk hexkey | mf slot | fo node | w"},
                            "impl": impl[i][:4000], "model": model[i][:4000], "failing_cases": len(mm)})
-    v = strict_routing(rep, PROP, seed + 3, 25 if tier == "quick" else 1500, tier)
+    v = strict_routing(rep, PROP, seed + 3, 25 if tier == "quick" else 800, tier)
     if v and not found:
         found = True
         rep.violation(v)
